@@ -88,11 +88,13 @@ def run_scenario(sc):
     controls = sorted(sc.get("controls", []), key=lambda c: c[0])
     end = sc["end"]
 
+    partial = []
+
     async def main(loop):
         import aiohomekit.controller.ip.connection as connmod
         net = vloop.Net(loop, [tuple(d) for d in sc.get("dials", [])])
         net.peer_form = peer_form
-        trace = []
+        trace = partial
 
         def log(kind, *args):
             trace.append((loop.ticks, kind) + args)
@@ -168,11 +170,7 @@ def run_scenario(sc):
                 except BaseException as e:  # noqa
                     log("returned", kind, "raised:" + type(e).__name__)
 
-            for (t, kind, arg) in controls:
-                if t > loop.ticks:
-                    await vloop.sleep_ticks(t - loop.ticks)
-                snap("pre")
-                log("control", kind, arg)
+            def fire(kind, arg):
                 if kind == "ensure":
                     waiters[arg] = asyncio.ensure_future(waiter(arg))
                     bg.append(waiters[arg])
@@ -189,29 +187,34 @@ def run_scenario(sc):
                             tr.peer_fin() if kind == "drop" else tr.peer_reset()
                 elif kind in ("close", "shutdown"):
                     bg.append(asyncio.ensure_future(closer(kind)))
-                elif kind == "shutdown_then":
-                    # shutdown() is started and, k event-loop iterations later (inside the SAME tick, while
-                    # shutdown is still suspended in close()), a second pairing-level event arrives
-                    k, kind2, arg2 = arg
-                    trace.pop()                                   # logged below as two controls
-                    log("control", "shutdown", 0)
-                    t_sh = asyncio.ensure_future(closer("shutdown"))
-                    bg.append(t_sh)
+                else:
+                    raise ValueError(kind)
+
+            for (t, kind, arg) in controls:
+                if t > loop.ticks:
+                    await vloop.sleep_ticks(t - loop.ticks)
+                snap("pre")
+                log("control", kind, arg)
+                if kind in ("shutdown_then", "close_then", "pair"):
+                    # two events inside the SAME tick, the second k event-loop iterations after the first (e.g.
+                    # while shutdown()/close() is still suspended in _stop_connector, or before a connection_lost
+                    # already scheduled by the first has run)
+                    if kind == "pair":
+                        k, kind1, arg1, kind2, arg2 = arg
+                    else:
+                        (k, kind2, arg2), kind1, arg1 = arg, kind.split("_")[0], 0
+                    trace.pop()                                   # logged as two controls
+                    log("control", kind1, arg1)
+                    fire(kind1, arg1)
                     for _ in range(k):
                         await asyncio.sleep(0)
                     log("control", kind2, arg2)
-                    if kind2 == "ensure":
-                        waiters[arg2] = asyncio.ensure_future(waiter(arg2))
-                        bg.append(waiters[arg2])
-                    elif kind2 == "zeroconf":
-                        p._async_description_update(ipsim.FakeDescription([host(i) for i in arg2], config_num=-1, state_num=1))
-                    else:
-                        raise ValueError(kind2)
+                    fire(kind2, arg2)
                     for _ in range(12):
                         await asyncio.sleep(0)
                     snap("pre")
                 else:
-                    raise ValueError(kind)
+                    fire(kind, arg)
             if end > loop.ticks:
                 await vloop.sleep_ticks(end - loop.ticks)
             snap("end")
@@ -230,6 +233,9 @@ def run_scenario(sc):
         trace, _ = vloop.run(main)
     except vloop.Stalled:
         return [[-1, "stalled"]]
+    except vloop.Livelock as e:
+        # some task spins without waiting (virtual time cannot advance): keep the start of the trace
+        return canon(partial[:400]) + [[int(e.args[0]), "livelock"]]
     return canon(trace)
 
 
